@@ -245,53 +245,132 @@ Definition kstep_rename_column_fk_refs (s : schema) (a : action) (rest : list ac
   | _ => false
   end.
 
-Definition ksteps : list (schema -> action -> list action -> bool) :=
-  [kstep_check_in_create; kstep_shared_enum; kstep_int_enum; kstep_drop_before_unreference;
-   kstep_composite_member; kstep_member_then_remove; kstep_rename_table_names; kstep_rename_column_names;
-   kstep_enum_left_by_drop_table; kstep_enum_case_fold; kstep_enum_vs_row_type; kstep_duplicate_name;
-   kstep_autoinc_by_alter; kstep_inline_promoted; kstep_rename_column_fk_refs].
+(* ---------- attribution of a failing case to the classes ----------
+   A class explains an engine error only if (a) one of its steps occurs at or before the failing action and
+   (b) the violated rule is one the class can cause; it explains a catalog difference item only if the kind of
+   item is one the class can cause.  A case is attributed to known findings only if its error is explained, or
+   EVERY difference item is explained, by a class that fires on it. *)
+Fixpoint exists_step_upto (n : nat) (p : schema -> action -> list action -> bool) (s : schema) (acts : list action) : bool :=
+  match n, acts with
+  | O, _ | _, [] => false
+  | S n', a :: r => (p s a r || exists_step_upto n' p (step_schema s a) r)%bool
+  end.
 
-Definition lift (p : schema -> action -> list action -> bool) (k : pg_case) : bool :=
-  exists_step p (g_baseline k) (g_actions k).
+Inductive dkind := DkMissingTable | DkExtraTable | DkMissingColumn | DkExtraColumn | DkColType | DkColNotnull
+| DkColDefault | DkColAuto | DkMissingIndex | DkExtraIndex | DkIndexDiffers | DkMissingCon | DkExtraCon
+| DkConDiffers | DkMissingType | DkExtraType | DkTypeLabels.
+Definition dkind_of (d : diff_item) : dkind :=
+  match d with
+  | DMissingTable _ => DkMissingTable | DExtraTable _ => DkExtraTable
+  | DMissingColumn _ _ => DkMissingColumn | DExtraColumn _ _ => DkExtraColumn
+  | DColumnDiffers _ _ w =>
+      if String.eqb w "type" then DkColType else if String.eqb w "notnull" then DkColNotnull
+      else if String.eqb w "default" then DkColDefault else DkColAuto
+  | DMissingIndex _ _ => DkMissingIndex | DExtraIndex _ _ => DkExtraIndex | DIndexDiffers _ _ => DkIndexDiffers
+  | DMissingConstraint _ _ => DkMissingCon | DExtraConstraint _ _ => DkExtraCon
+  | DConstraintDiffers _ _ => DkConDiffers
+  | DMissingType _ => DkMissingType | DExtraType _ => DkExtraType | DTypeLabels _ => DkTypeLabels
+  end.
+Definition dkind_eqb (a b : dkind) : bool :=
+  match a, b with
+  | DkMissingTable, DkMissingTable | DkExtraTable, DkExtraTable | DkMissingColumn, DkMissingColumn
+  | DkExtraColumn, DkExtraColumn | DkColType, DkColType | DkColNotnull, DkColNotnull | DkColDefault, DkColDefault
+  | DkColAuto, DkColAuto | DkMissingIndex, DkMissingIndex | DkExtraIndex, DkExtraIndex
+  | DkIndexDiffers, DkIndexDiffers | DkMissingCon, DkMissingCon | DkExtraCon, DkExtraCon
+  | DkConDiffers, DkConDiffers | DkMissingType, DkMissingType | DkExtraType, DkExtraType
+  | DkTypeLabels, DkTypeLabels => true
+  | _, _ => false
+  end.
 
-Definition known_C03_check_in_create := lift kstep_check_in_create.
-Definition known_C03_shared_enum := lift kstep_shared_enum.
-Definition known_C03_int_enum := lift kstep_int_enum.
-Definition known_C03_drop_before_unreference := lift kstep_drop_before_unreference.
-Definition known_C03_composite_member (k : pg_case) : bool :=
-  (lift kstep_composite_member k || lift kstep_member_then_remove k)%bool.
-Definition known_C03_rename_table_names := lift kstep_rename_table_names.
-Definition known_C03_rename_column_names := lift kstep_rename_column_names.
-Definition known_C03_enum_left_by_drop_table := lift kstep_enum_left_by_drop_table.
-Definition known_C03_enum_case_fold := lift kstep_enum_case_fold.
-Definition known_C03_enum_vs_row_type := lift kstep_enum_vs_row_type.
-Definition known_C03_duplicate_name := lift kstep_duplicate_name.
-Definition known_C03_autoinc_by_alter := lift kstep_autoinc_by_alter.
-Definition known_C03_inline_promoted := lift kstep_inline_promoted.
-Definition known_C03_rename_column_fk_refs := lift kstep_rename_column_fk_refs.
+(* the baseline itself already holds two constraints of one table with the same derived name (K11 happened in an
+   earlier migration, or the constraint is declared twice): catalog_of (baseline) is then not a catalog PostgreSQL
+   can be in, and every later migration of that history is judged from an impossible start *)
+Definition table_names_clash (t : table_def) : bool :=
+  let ks := first_pk_only false (t_constraints t) in
+  (negb (nodup_str (index_names (t_name t) ks ++ (if existsb is_pk ks then [t_name t +++ "_pkey"] else [])))
+   || negb (nodup_str (fk_names (t_name t) ks
+                       ++ flat_map (fun k => match k with CCheck n _ => [n] | _ => [] end) ks
+                       ++ (if existsb is_pk ks then [t_name t +++ "_pkey"] else []))))%bool.
+Definition kbase_duplicate_name (s : schema) : bool := existsb table_names_clash s.
+Definition no_base (s : schema) : bool := false.
 
-(* order = order of the "classifiers" list the driver passes; one bit per classifier *)
-Definition class_bits (k : pg_case) : list bool :=
-  [known_C03_check_in_create k; known_C03_shared_enum k; known_C03_int_enum k;
-   known_C03_drop_before_unreference k; known_C03_composite_member k; known_C03_rename_table_names k;
-   known_C03_rename_column_names k; known_C03_enum_left_by_drop_table k; known_C03_enum_case_fold k;
-   known_C03_enum_vs_row_type k; known_C03_duplicate_name k; known_C03_autoinc_by_alter k;
-   known_C03_inline_promoted k; known_C03_rename_column_fk_refs k].
-Definition class_names : list string :=
-  ["known_C03_check_in_create"; "known_C03_shared_enum"; "known_C03_int_enum";
-   "known_C03_drop_before_unreference"; "known_C03_composite_member"; "known_C03_rename_table_names";
-   "known_C03_rename_column_names"; "known_C03_enum_left_by_drop_table"; "known_C03_enum_case_fold";
-   "known_C03_enum_vs_row_type"; "known_C03_duplicate_name"; "known_C03_autoinc_by_alter";
-   "known_C03_inline_promoted"; "known_C03_rename_column_fk_refs"].
+Record kclass := mkClass {
+  kc_name : string;
+  kc_base : schema -> bool;      (* a condition on the baseline alone *)
+  kc_step : schema -> action -> list action -> bool;
+  kc_errors : list nat;          (* error codes (CorrPg.error_code) the class can cause *)
+  kc_diffs : list dkind }.       (* kinds of catalog difference the class can cause *)
 
-(* rows for the driver: every case that is not OOk, with its classifier bits *)
+Definition index_con_diffs : list dkind :=
+  [DkMissingIndex; DkExtraIndex; DkIndexDiffers; DkMissingCon; DkExtraCon; DkConDiffers].
+
+Definition classes : list kclass :=
+  [ mkClass "known_C03_check_in_create" no_base kstep_check_in_create [7] [DkMissingCon]
+  ; mkClass "known_C03_shared_enum" no_base kstep_shared_enum [10; 2] []
+  ; mkClass "known_C03_int_enum" no_base kstep_int_enum [9; 18] []
+  ; mkClass "known_C03_drop_before_unreference" no_base kstep_drop_before_unreference [11] []
+  ; mkClass "known_C03_composite_member" no_base
+            (fun s a r => (kstep_composite_member s a r || kstep_member_then_remove s a r)%bool)
+            [6; 7] (DkColNotnull :: index_con_diffs)
+  ; mkClass "known_C03_rename_table_names" no_base kstep_rename_table_names [6; 7; 9; 2; 1; 8]
+            (DkColType :: DkMissingType :: DkExtraType :: index_con_diffs)
+  ; mkClass "known_C03_rename_column_names" no_base kstep_rename_column_names [6; 7; 1; 8] index_con_diffs
+  ; mkClass "known_C03_enum_left_by_drop_table" no_base kstep_enum_left_by_drop_table [2] [DkExtraType]
+  ; mkClass "known_C03_enum_case_fold" no_base kstep_enum_case_fold [9] [DkColType]
+  ; mkClass "known_C03_enum_vs_row_type" no_base kstep_enum_vs_row_type [2] []
+  ; mkClass "known_C03_duplicate_name" kbase_duplicate_name kstep_duplicate_name [1; 8; 6; 7] index_con_diffs
+  ; mkClass "known_C03_autoinc_by_alter" no_base kstep_autoinc_by_alter [] [DkColAuto]
+  ; mkClass "known_C03_inline_promoted" no_base kstep_inline_promoted [1; 8] index_con_diffs
+  ; mkClass "known_C03_rename_column_fk_refs" no_base kstep_rename_column_fk_refs [] [DkConDiffers] ].
+Definition class_names : list string := map kc_name classes.
+
+Definition mem_nat (n : nat) (l : list nat) : bool := existsb (Nat.eqb n) l.
+Definition mem_dkind (d : dkind) (l : list dkind) : bool := existsb (dkind_eqb d) l.
+
+(* (bits per class, explained?) *)
+Definition attribute (k : pg_case) (o : outcome) : list bool * bool :=
+  match o with
+  | OEngineError ai _ e =>
+      let bits := map (fun c => (mem_nat (error_code e) (kc_errors c)
+                                 && (kc_base c (g_baseline k)
+                                     || exists_step_upto (S ai) (kc_step c) (g_baseline k) (g_actions k)))%bool) classes in
+      (bits, existsb (fun b => b) bits)
+  | ODiff d =>
+      let fires (c : kclass) := (kc_base c (g_baseline k) || exists_step (kc_step c) (g_baseline k) (g_actions k))%bool in
+      let firing := filter fires classes in
+      let bits := map (fun c => (fires c && existsb (fun x => mem_dkind (dkind_of x) (kc_diffs c)) d)%bool) classes in
+      (bits, forallb (fun x => existsb (fun c => mem_dkind (dkind_of x) (kc_diffs c)) firing) d)
+  | _ => (map (fun _ => false) classes, false)
+  end.
+
+(* the classifier booleans named by the known-findings entries *)
+Definition known_by (name : string) (k : pg_case) : bool :=
+  let o := oracle k in
+  let (bits, ok) := attribute k o in
+  (ok && existsb (fun p => (String.eqb (kc_name (fst p)) name && snd p)%bool) (combine classes bits))%bool.
+Definition known_C03_check_in_create := known_by "known_C03_check_in_create".
+Definition known_C03_shared_enum := known_by "known_C03_shared_enum".
+Definition known_C03_int_enum := known_by "known_C03_int_enum".
+Definition known_C03_drop_before_unreference := known_by "known_C03_drop_before_unreference".
+Definition known_C03_composite_member := known_by "known_C03_composite_member".
+Definition known_C03_rename_table_names := known_by "known_C03_rename_table_names".
+Definition known_C03_rename_column_names := known_by "known_C03_rename_column_names".
+Definition known_C03_enum_left_by_drop_table := known_by "known_C03_enum_left_by_drop_table".
+Definition known_C03_enum_case_fold := known_by "known_C03_enum_case_fold".
+Definition known_C03_enum_vs_row_type := known_by "known_C03_enum_vs_row_type".
+Definition known_C03_duplicate_name := known_by "known_C03_duplicate_name".
+Definition known_C03_autoinc_by_alter := known_by "known_C03_autoinc_by_alter".
+Definition known_C03_inline_promoted := known_by "known_C03_inline_promoted".
+Definition known_C03_rename_column_fk_refs := known_by "known_C03_rename_column_fk_refs".
+
+(* rows for the driver: every case that is not OOk, with its attribution *)
 Fixpoint report_from (i : nat) (cs : list pg_case)
-  : list (nat * (nat * nat * nat * nat * string) * list bool) :=
+  : list (nat * (nat * nat * nat * nat * string) * list bool * bool) :=
   match cs with
   | [] => []
   | k :: r =>
       match oracle k with
       | OOk => report_from (S i) r
-      | o => (i, outcome_row o, class_bits k) :: report_from (S i) r
+      | o => let (bits, ok) := attribute k o in (i, outcome_row o, bits, ok) :: report_from (S i) r
       end
   end.
